@@ -34,7 +34,7 @@ func init() {
 		Rule: "all histories of <=1 (thorough <=2) earlier programs followed by a program under test over an alphabet of 68 programs (incl. source files loaded by relative path - a module that raises, one that does not parse, a good one - and regular expressions whose texts share one symbol key) (incl. pairs that raise the same run-time error from different source positions, and programs that invite!/import the embedded and Go standard modules after defining variables) (define a variable, read it, shadow a built-in name, use a built-in, raise `_` on different lines, touch Either's abstract props, raise at depth 2, syntax error, intern new symbols via evalEnv, print, read stdin, iterate, user error, error inside native code, inspect built-in prototypes), " +
 			"each history in a new process, under 2 reuse drivers (playground: one const env, one enclosed scope per program - the call sequence of web/wasm/executor.go; `pangaea test`: runscript.RunTest over a generated directory); " +
 			"oracle: (stdout, value, error message, stack trace) of the program under test equals its observation alone in a new process; states = histories, transitions = program evaluations; " +
-			"non-trivial = every history of length >=1; distinct = distinct (driver, history, program)",
+			"non-trivial = every history of length >=1; distinct = distinct (driver, history, program); round 8: The alphabet (68 programs) also has operations that fail part-way (caught) next to the same operations done plainly, and many failed deep calls next to a 9900-deep recursion.",
 		Assumptions: []string{
 			"the playground is driven through the executor's call sequence (web/wasm pins an old release and cannot be built against the working tree)",
 			"under RunTest earlier programs are the non-failing ones (a failing file ends the run by design)",
